@@ -4,6 +4,8 @@ go 1.17
 
 require github.com/kubeshark/base v0.0.0
 
+require github.com/segmentio/kafka-go v0.4.38
+
 require github.com/kubeshark/gopacket v1.1.20 // indirect
 
 replace github.com/kubeshark/base => /repo
